@@ -161,7 +161,12 @@ func Run(cfg hx.Config) error {
 	nfeeds := cfg.N(2, 10)
 	for ti := range ts {
 		t := &ts[ti]
-		for fi := 0; fi < nfeeds && !r.Stop(); fi++ {
+		nf := nfeeds
+		if strings.HasSuffix(t.name, "-fetch") || strings.HasPrefix(t.name, "vex-") {
+			// a run of these is a whole Fetch (dozens of requests): one feed in the quick tier
+			nf = cfg.N(1, nfeeds)
+		}
+		for fi := 0; fi < nf && !r.Stop(); fi++ {
 			size := 1 + rnd.Intn(cfg.N(2, 5))
 			plain, spool := t.gen(rnd, size)
 			f := &feed{t: t, idx: fi, plain: plain, spool: spool}
@@ -181,6 +186,7 @@ func Run(cfg hx.Config) error {
 			}
 			sweepFeed(r, f, rnd.Fork(), cfg)
 		}
+		lap("  " + t.name)
 	}
 	lap("targets")
 	if !r.Stop() {
@@ -190,7 +196,10 @@ func Run(cfg hx.Config) error {
 	if !r.Stop() {
 		runTransfers(r, rnd.Fork(), cfg)
 	}
-	lap("transfers")
+	if !r.Stop() {
+		runCallHistories(r, ts, rnd.Fork(), cfg)
+	}
+	lap("histories")
 	if !r.Stop() {
 		r.Op("reset", "ok", false)
 		runManager(r, rnd, cfg)
